@@ -24,7 +24,9 @@ OBLIGATIONS.append(dict(id='C03.tree.and', engine='V', verus_fn='Parser::parse_a
     desc='real parse_and, every iteration: logical(chain, And, operand); its operands come from parse_cond and the operands of OR from parse_and (AND binds tighter - by the call structure)'))
 OBLIGATIONS.append(dict(id='C03.brackets', engine='V', verus_fn='Parser::parse_paren', label='C11.brackets', complete=True, bound=None, units=[], harness='verus:Parser::parse_paren', tier='quick',
     desc='real parse_paren, every token vector: a round-bracketed expression is accepted only when closed by a round bracket, a curly one only by a curly bracket; the bracketed expression is returned unchanged (both styles mean the same)'))
-CANARIES = [dict(harness=CMP + 'canary_cmp_must_fail', units=['cmp']), dict(harness=LOGIC + 'canary_logic_must_fail', units=['logic']),
+OBLIGATIONS.append(ob('C03.negate.complement.string', 'verif_frag::strarm::c12_arm_glob_edge', 'String arm of conforms (whole block verbatim on a shim world): on every witness the negative operator (`!=`) returns the complement of the positive one (same harness as C12.arm.glob_edge)', units=['strarm'], complete=False, bound='concrete witness texts'))
+OBLIGATIONS.append(ob('C03.negate.complement.string.rx', 'verif_frag::strarm::c12_arm_rx_like', 'String arm of conforms: `!=~` / `notlike` return the complement of `=~` / `like` on every witness (same harness as C12.arm.rx_like)', units=['strarm'], complete=False, bound='concrete witness texts'))
+CANARIES = [dict(harness='verif_frag::strarm::canary_strarm_must_fail', units=['strarm']), dict(harness=CMP + 'canary_cmp_must_fail', units=['cmp']), dict(harness=LOGIC + 'canary_logic_must_fail', units=['logic']),
             dict(harness=OPS + 'canary_ops_must_fail', units=['operators'])]
 ASSUMPTIONS = ['float arm: stated for non-NaN operands (IEEE comparisons with NaN are not complements)', 'date arm: start <= finish']
 NOT_COVERED = ['AND-over-OR precedence and bracket override as a statement about the parsed tree', 'string arm (regex)', '`not` over atoms whose columns may be absent']
